@@ -791,29 +791,26 @@ class MaterialIndexer(Indexer):
                 self.data.rows[phase_index][left_index] = other_data[right_index] 
         else:
             other_phase_indexer = other._phase_indexer
+            same_phases = phase_indexer is other_phase_indexer
+            if not (same_phases or phase_indexer.compatible_with(other_phase_indexer)):
+                self._expand_phases(other._phases)
+                phase_indexer = self._phase_indexer
             if self.chemicals is other.chemicals:
-                if phase_indexer is other_phase_indexer:
+                if same_phases:
                     self.data.copy_like(other.data)
-                elif phase_indexer.compatible_with(other_phase_indexer):
-                    self.empty()
-                    data = self.data
-                    for i, j in other: data[phase_indexer(i)] = j
                 else:
-                    self._expand_phases(other._phases)
-                    self.data.copy_like(other.data)
+                    self.empty()
+                    rows = self.data.rows
+                    for i, j in other: rows[phase_indexer(i)].copy_like(j)
             else:
                 self.empty()
                 other_data = other.data
-                data = self.data
                 left_index, right_index = index_overlap(self._chemicals, other._chemicals, [*other_data.nonzero_keys()])
-                if phase_indexer is other_phase_indexer:
-                    data[:, left_index] = other_data[:, right_index]
-                elif phase_indexer.compatible_with(other_phase_indexer):
-                    for i, j in other: data[phase_indexer(i)] += j
+                if same_phases:
+                    self.data[:, left_index] = other_data[:, right_index]
                 else:
-                    self._expand_phases(other._phases)
-                    data[:, left_index] = other_data[:, right_index]
-                    
+                    rows = self.data.rows
+                    for i, j in other: rows[phase_indexer(i)][left_index] = j[right_index]
     
     def _expand_phases(self, other_phases=None):
         phases = self._phases
